@@ -450,11 +450,17 @@ Definition digit_val (c:N) : option Z :=
   if (48 <=? z) && (z <=? 57) then Some (z - 48) else if (97 <=? z) && (z <=? 122) then Some (z - 87) else if (65 <=? z) && (z <=? 90) then Some (z - 55) else None.
 Fixpoint parse_digits (base:Z) (l:list N) (acc:Z) : option Z :=
   match l with [] => Some acc | c :: r => match digit_val c with Some d => if d <? base then parse_digits base r (acc * base + d) else None | None => None end end.
+(* int(s, base): an optional sign, then - for base 16 / 8 / 2 only - an optional prefix 0x / 0o / 0b (either case), then at least one digit *)
+Definition prefix_letter (base:Z) (c:N) : bool :=
+  let lc := if ((65 <=? c) && (c <=? 90))%N then (c + 32)%N else c in
+  ((base =? 16) && N.eqb lc 120) || ((base =? 8) && N.eqb lc 111) || ((base =? 2) && N.eqb lc 98).
+Definition drop_prefix (base:Z) (r:list N) : list N :=
+  match r with a :: c :: (d :: r') => if N.eqb a 48 && prefix_letter base c then d :: r' else r | _ => r end.
+Definition parse_unsigned (r:list N) (base:Z) : option Z := match drop_prefix base r with [] => None | ds => parse_digits base ds 0 end.
 Definition parse_int (s:list N) (base:Z) : option Z :=
   match s with
-  | 45%N :: (_ :: _) as r => match parse_digits base r 0 with Some n => Some (- n) | None => None end
-  | 43%N :: (_ :: _) as r => parse_digits base r 0
-  | _ :: _ => parse_digits base s 0
+  | c :: r => if N.eqb c 45 then match parse_unsigned r base with Some n => Some (- n) | None => None end
+              else if N.eqb c 43 then parse_unsigned r base else parse_unsigned s base
   | [] => None end.
 Definition simple_numeral (s:list N) : bool := forallb (fun c => match digit_val c with Some _ => true | None => N.eqb c 45 || N.eqb c 43 end) s.
 (* a printable ASCII character that is no digit, letter, sign or underscore: no spelling of an integer in any base contains one *)
@@ -465,9 +471,10 @@ Definition bi_integer (sp:span) (argv:list value) : Comp value :=
   match vs with
   | VInt n :: rest => check_arity sp (length vs) [1%nat] ;;; Ret (VInt n)
   | VFloat f :: rest => check_arity sp (length vs) [1%nat] ;;; match rounding 0 f with Some n => Ret (VInt n) | None => raise c_value sp (* repaired: host OverflowError / ValueError *) end
-  | [VStr s] => if simple_numeral s then match parse_int s 10 with Some n => Ret (VInt n) | None => raise c_value sp end
-                else if hopeless_numeral s then raise c_value sp else raise c_unmodelled sp
-  | [VStr s; VInt b] =>
+  | [VStr s0] => let s := FloatText.strip s0 in          (* int() strips blanks (ASCII ones modelled) *)
+                 if simple_numeral s then match parse_int s 10 with Some n => Ret (VInt n) | None => raise c_value sp end
+                 else if hopeless_numeral s then raise c_value sp else raise c_unmodelled sp
+  | [VStr s0; VInt b] => let s := FloatText.strip s0 in
       if (2 <=? b) && (b <=? 36) then
         if simple_numeral s then match parse_int s b with Some n => Ret (VInt n) | None => raise c_value sp end
         else if hopeless_numeral s then raise c_value sp else raise c_unmodelled sp
@@ -476,6 +483,28 @@ Definition bi_integer (sp:span) (argv:list value) : Comp value :=
   | [VStr _; _] => raise c_type sp
   | _ => raise c_type sp end.
 
+(* ㅅㅅ with a base other than ten (constructors._float): the stripped text is split at ".", integer and fraction digits are read TOGETHER as one
+   integer of that base (int(): sign, prefix), and that integer is divided by base ^ (number of fraction digits) - int / int, correctly rounded *)
+Fixpoint split_dots (l cur:list N) : list (list N) :=
+  match l with [] => [rev cur] | c :: r => if N.eqb c 46 then rev cur :: split_dots r [] else split_dots r (c :: cur) end.
+Definition float_in_base (s:list N) (b:Z) : FloatText.ptext :=
+  if existsb (fun c => (127 <? c)%N || N.eqb c 95 || ((c <? 32)%N && negb (FloatText.is_space c))) s then FloatText.PUnmodelled
+  else if b =? 0 then FloatText.PUnmodelled
+  else
+    let go (ip fp:list N) :=
+      if negb ((2 <=? b) && (b <=? 36)) then FloatText.PBad else
+      match parse_int (ip ++ fp) b with
+      | None => FloatText.PBad
+      | Some n =>
+          if n =? 0 then FloatText.PFloat (S754_zero false)
+          else match SFdiv FloatText.fprec FloatText.femax (S754_finite (n <? 0) (Z.to_pos (Z.abs n)) 0) (S754_finite false (Z.to_pos (b ^ Z.of_nat (length fp))) 0) with
+               | S754_infinity _ => FloatText.PBad          (* OverflowError: integer division result too large for a float *)
+               | f => FloatText.PFloat f end
+      end in
+    match split_dots (FloatText.strip s) [] with
+    | [ip] => go ip []
+    | [ip; fp] => go ip fp
+    | _ => FloatText.PBad end.
 Definition bi_float (sp:span) (argv:list value) : Comp value :=
   vs <- match_arguments sp argv (orp is_real is_str) [1%nat; 2%nat] ;;
   match vs with
@@ -484,7 +513,9 @@ Definition bi_float (sp:span) (argv:list value) : Comp value :=
   | [VStr s] | [VStr s; VInt 10] =>                       (* float(string): FloatText.parse_float_text, the double nearest to the decimal *)
       match FloatText.parse_float_text s with
       | FloatText.PFloat f => Ret (VFloat f) | FloatText.PBad => raise c_value sp | FloatText.PUnmodelled => raise c_unmodelled sp end
-  | [VStr _; VInt _] => raise c_unmodelled sp             (* other bases: integer.fraction digits of that base *)
+  | [VStr s; VInt b] =>
+      match float_in_base s b with
+      | FloatText.PFloat f => Ret (VFloat f) | FloatText.PBad => raise c_value sp | FloatText.PUnmodelled => raise c_unmodelled sp end
   | [VStr _; _] => raise c_type sp
   | _ => raise c_unmodelled sp end.
 
